@@ -122,6 +122,8 @@ class C13(Prop):
                 j.failures.append('%s schedule %s..., intended dates %s...' % (c['which'], sched[:5], want[:5]))
             if c['which'] != 'buy_and_hold' and len(impl) > 2:
                 kind = 'market_open' if c['pm'] else 'market_close'
+                if len(impl) > 3 and impl[3] != len(impl[2]):
+                    j.failures.append('the clock of the range gives %d events on its first walk and %d on the next' % (impl[3], len(impl[2])))
                 ev = set(e[0] for e in impl[2] if e[1] == kind)
                 miss = [t for t in sched if t not in ev]
                 if miss:
